@@ -57,11 +57,12 @@ CHECKS = {
               "per-producer order, batch size 1..100, partition key = environment id (task id for task events), everything delivered when "
               "Close returns, producers finish while the broker is held. Non-trivial: >=2 producers and a backlog >100 when Close is called. The hand-over channel has its production capacity or (hook H1 variant) "
               "4-64 slots, so that 'channel full' is reached. TestWriterPerTopic: 2-24 goroutines ask the.EventWriterWithTopic for the writer of a fresh "
-              "topic at the same moment and must all be given the same one."),
+              "topic at the same moment and must all be given the same one. TestCloseRepeated: a writer is created, 0-2 events are published and "
+              "Close is called, 45000 times (360000 thorough): Close returns within 5 s with everything handed over."),
         assumptions=["the Kafka broker is replaced by the injected write function (overlay hook H1 builds the writer exactly like NewWriterWithTopic)",
                      "goroutine scheduling inside the writer is not owned by the harness; schedules are sampled by repetition"],
-        quick=[R("^TestWriterFixed$", 1, 1, 200), R("^TestWriter$", 40, 12, 400), R("^TestWriterPerTopic$", 150, 2, 300)],
-        thorough=[R("^TestWriterFixed$", 1, 1, 200), R("^TestWriter$", 700, 14, 3000), R("^TestWriter$", 100, 2, 3000, race=True), R("^TestWriterPerTopic$", 3000, 2, 3000)],
+        quick=[R("^TestWriterFixed$", 1, 1, 200), R("^TestWriter$", 40, 12, 400), R("^TestWriterPerTopic$", 150, 2, 300), R("^TestCloseRepeated$", 1, 1, 300)],
+        thorough=[R("^TestWriterFixed$", 1, 1, 200), R("^TestWriter$", 700, 14, 3000), R("^TestWriter$", 100, 2, 3000, race=True), R("^TestWriterPerTopic$", 3000, 2, 3000), R("^TestCloseRepeated$", 1, 1, 1500)],
         floors={"backlog>100": ("TestWriter", 0.2)},
     ),
     "C11": dict(
